@@ -319,8 +319,10 @@ def emit_tu(exprs, path_dir, label):
     return path, h
 
 
-def programs(seed, nrandom, exact, per_tu, out_dir, label):
+def programs(seed, nrandom, exact, per_tu, out_dir, label, maxin=3):
     """catalogue + nrandom random expressions split into TUs of per_tu."""
+    global MAXIN
+    MAXIN = maxin   # operand orders 0..maxin bound the admissible expressions
     exprs = catalogue(exact) + random_set(seed, nrandom, exact)
     tus = []
     for i in range(0, len(exprs), per_tu):
